@@ -10,6 +10,7 @@ RULE = ("generated projects (profiles core/text/keys: literal, variable, null, o
         "strings, nested variables, abstract types with asFoo refinements, loadable client fields, __refetch) + the four "
         "checked-in projects are compiled with the real isograph_cli; every operation string, as node evaluates it from "
         "the artifact (entrypoint query_text and each refetch query text), is parsed and validated (spec section 5) by "
+        "[also for any single-fault mutant of such a project that the compiler accepts] "
         "the reference implementation pylib/gqlref.py against the project's schema. Non-trivial: a successfully compiled "
         "project with >=1 operation that has arguments or variables; distinct by operation text hash.")
 
@@ -99,6 +100,13 @@ def run(ctx):
     cli = runner.build_cli()
     n = ctx.pick(80, 5000)
     results = e3.run_cases(ctx, cli, ["core", "text", "keys"], n, "c09", [("props.c09", "analyze")])
+    # near-miss corpus: single-fault mutants (pylib/isomut.py). Normally rejected, hence not judged; whenever the
+    # compiler does accept one, the operations it generated are validated like any other. The `id`-argument mutant is
+    # left out: its acceptance is the listed C16 known finding (the undefined argument then shows in the operation).
+    mres = e3.run_cases(ctx, cli, ["core", "keys"], ctx.pick(120, 4000), "c09m", [("props.c09", "analyze")],
+                        with_checked_in=False, mutate=True, mutate_exclude=("undefined-argument-named-id",))
+    accepted_mutants = sum(1 for r in mres if r["ok"])
+    results = results + mres
     v, subjects, ops, samples = [], collections.Counter(), set(), []
     ok = nontrivial = 0
     for r in results:
@@ -113,7 +121,8 @@ def run(ctx):
         if a["sample"] and len(samples) < 3:
             samples.append(a["sample"])
     cov = {"evaluations": len(results), "distinct_nontrivial": min(nontrivial, len(ops)), "rule": RULE, "samples": samples,
-           "successful_compiles": ok, "distinct_operations_validated": len(ops), "rule_subjects": dict(subjects)}
+           "successful_compiles": ok, "distinct_operations_validated": len(ops), "rule_subjects": dict(subjects),
+           "near_miss_mutants_compiled": len(mres), "near_miss_mutants_accepted_and_validated": accepted_mutants}
     return runner.finish(ctx, LEVEL, cov, v, assumptions=[
         "pylib/gqlref.py (spec transcription written for this harness) is the validator; self-tested on hand-made invalid documents each run",
         "the schema given to the validator is the project's schema file plus extensions as written",
